@@ -72,6 +72,13 @@ def build_db(ft, lemmas, goal_variant):
         t = mmgen.apply('l2', fr8, {'ph0': A('\\f', ph0)}, [mmgen.apply('l2', fr8, {'ph0': ph0}, [('l8.0', [])])])
         st.append(('block', [('e', 'l8.0', (TH, ph0)),
                              ('p', 'l8', (TH, A('\\f', A('\\f', ph0))), mmref.encode_compressed(t, mand(['ph0']) + ['l8.0'], 'all'))]))
+    if 'L12' in lemmas:
+        # nested blocks with one hypothesis in the OUTER block and one in the inner block, both used by the proof
+        t = mmgen.apply('rule-s', fr, {'ph0': ph0, 'ph1': ph1}, [('l12.0', []), ('l12.1', [])])
+        st.append(('block', [('e', 'l12.0', (TH, ph0)),
+                             ('block', [('e', 'l12.1', (TH, IMP(ph0, ph1))),
+                                        ('p', 'l12', (TH, A('\\g', ph1, ph0, c0)),
+                                         mmref.encode_compressed(t, mand(['ph0', 'ph1']) + ['l12.0', 'l12.1'], 'none'))])]))
     if 'L7' in lemmas:
         # the proof goes through a DUMMY variable (ph3 occurs in no statement of the lemma): its floating hypothesis is not
         # mandatory, so it is named in the proof's label list and the slice has to declare the variable for it
@@ -139,6 +146,11 @@ def build_db(ft, lemmas, goal_variant):
     elif goal_variant == 'dummydv' and 'L10' in lemmas:
         target = IMP(c0, c0)
         t = mmgen.apply('l10', fr, {'ph0': c0}, [])
+    elif goal_variant == 'outerhyp' and 'L12' in lemmas:
+        fc = A('\\f', c0)
+        target = A('\\g', IMP(c0, fc), fc, c0)
+        t = mmgen.apply('l12', fr, {'ph0': fc, 'ph1': IMP(c0, fc)},
+                        [('ax-b', []), mmgen.apply('proof-rule-prop-1', fr, {'ph0': fc, 'ph1': c0}, [])])
     elif goal_variant == 'axiom':
         target = IMP(c0, A('c1'))
         t = ('ax-a', [])
@@ -154,9 +166,9 @@ def specs(thorough):
     orders = [(0, 1, 2), (2, 0, 1), (1, 2, 0)] if thorough else [(0, 1, 2), (1, 2, 0)]
     for o in orders:
         for notation in (False, True):
-            for k in range(0, 10 if thorough else 4):
-                for lem in itertools.combinations(('L1', 'L2', 'L3', 'L4', 'L5', 'L6', 'L7', 'L8', 'L10'), k):
-                    for gv in ('refl', 'rule', 'both', 'dv', 'nested', 'notation', 'gdv', 'dvextra', 'dummy', 'dummydv', 'chain', 'axiom'):
+            for k in range(0, 11 if thorough else 4):
+                for lem in itertools.combinations(('L1', 'L2', 'L3', 'L4', 'L5', 'L6', 'L7', 'L8', 'L10', 'L12'), k):
+                    for gv in ('refl', 'rule', 'both', 'dv', 'nested', 'notation', 'gdv', 'dvextra', 'dummy', 'dummydv', 'chain', 'outerhyp', 'axiom'):
                         out.append((o, notation, lem, gv))
     return out
 
@@ -249,7 +261,7 @@ def slices(db, desc, orig_model):
 
 
 def _kind(label):
-    return {'l1': 'plain', 'l2': 'essential', 'l3': 'disjoint', 'l4': 'nested', 'l5': 'global_dv', 'l6': 'dv_extra_var', 'l7': 'dummy_var', 'l8': 'essential_uses_essential', 'l10': 'dummy_var_global_dv'}.get(label, 'goal')
+    return {'l1': 'plain', 'l2': 'essential', 'l3': 'disjoint', 'l4': 'nested', 'l5': 'global_dv', 'l6': 'dv_extra_var', 'l7': 'dummy_var', 'l8': 'essential_uses_essential', 'l10': 'dummy_var_global_dv', 'l12': 'outer_block_hypothesis'}.get(label, 'goal')
 
 
 def db_chunk(sps):
